@@ -179,6 +179,48 @@ def run(ck: Check) -> int:
                    'DOTMATCH); a disagreement is attributed to KF-D1 iff a repeated group whose body carries a start guard stands at the start of the '
                    'pattern (Pat.startSafe false), to KF-D3 iff the name ends in a newline and the pattern has !( ; anything else is a violation')
     ck.search('spec-vs-fnmatch', s_search)
+
+    def s_unicode_case(sr):
+        # Case-insensitive matching of letters outside ASCII (the Lean regex model folds ASCII only, so this clause is decided on the
+        # real code by an independent statement of the documented language for LITERALS, `?`, and one-member / one-range brackets:
+        # under IGNORECASE two cased letters match iff their simple case mappings agree; under CASE, or without IGNORECASE on this
+        # host, iff they are equal).  Added after seeded change C01h (`re.ASCII` on the compiled regex: `fnmatch('é', 'É', I)` False).
+        pairs = [('é', 'É'), ('ä', 'Ä'), ('ж', 'Ж'), ('ω', 'Ω'), ('ç', 'Ç'), ('ø', 'Ø'), ('я', 'Я'), ('ñ', 'Ñ')]
+        sr.note = (f'{len(pairs)} cased letter pairs outside ASCII x literal / prefix+literal / `?` / bracket member / bracket range / negated bracket '
+                   'x {IGNORECASE, CASE, IGNORECASE|CASE, none} x {DOTMATCH, EXTMATCH} x fnmatch / filter / compile().match, str only')
+
+        def same(a, b, ci):
+            return a == b or (ci and (a.lower() == b.lower() or a.upper() == b.upper()))
+        for lo, up in pairs:
+            for fl0, ci in ((F.IGNORECASE, True), (F.CASE, False), (F.IGNORECASE | F.CASE, False), (0, False)):
+                for extra in (0, F.DOTMATCH, F.EXTMATCH):
+                    fl = fl0 | extra | F.FORCEUNIX
+                    for pc in (lo, up):
+                        for nc in (lo, up):
+                            eq = same(pc, nc, ci)
+                            lo_r, up_r = chr(ord(lo) - 1), chr(ord(lo) + 1)
+                            forms = [(pc, nc, eq), ('x' + pc + 'y', 'x' + nc + 'y', eq), ('?', nc, True), ('[' + pc + ']', nc, eq),
+                                     ('[!' + pc + ']', nc, not eq), ('x[' + lo_r + '-' + up_r + ']', 'x' + nc, same(lo, nc, ci)),
+                                     ('@(' + pc + '|q)', nc, eq) if extra == F.EXTMATCH else (pc + '*', nc + 'z', eq)]
+                            for k, (pat, name, exp) in enumerate(forms):
+                                sr.evaluations += 1
+                                api = ('fnmatch', 'filter', 'compile')[(k + len(sr.samples)) % 3]
+                                if api == 'fnmatch':
+                                    got = F.fnmatch(name, pat, flags=fl)
+                                elif api == 'filter':
+                                    got = bool(F.filter([name], pat, flags=fl))
+                                else:
+                                    got = F.compile(pat, flags=fl).match(name)
+                                if bool(got) != exp:
+                                    ck.report(Failing(f'{api}: name {name!r} pattern {pat!r} (letters outside ASCII): code {bool(got)}, documented language {exp}',
+                                                      {'api': 'fnmatch.' + api, 'pattern': pat, 'name': name, 'flags': fl}, exp, bool(got)), None)
+                                    sr.histogram['FAIL'] = sr.histogram.get('FAIL', 0) + 1
+                                else:
+                                    sr.histogram['holds'] = sr.histogram.get('holds', 0) + 1
+            if len(sr.samples) < 2:
+                sr.samples.append({'pair': [lo, up]})
+        sr.distinct = len(pairs)
+    ck.search('non-ascii-case', s_unicode_case)
     if drv:
         drv.close()
     return ck.finish()
